@@ -192,7 +192,7 @@ def write(tabs, traces=None, path=None):
     return names, info, traces
 
 
-KINDS = {'c01': ('wrapC01', 'c01OK'), 'c03': ('wrapC03', 'c03OK'), 'c05': ('wrapC05', 'c05OK'), 'c07': ('wrapC07', 'c07OK'), 'c08': ('wrapC08', 'c08OK'), 'c06': ('wrapC06', 'c06OK')}
+KINDS = {'c01': ('wrapC01', 'c01OK'), 'c03': ('wrapC03', 'c03OK'), 'c05': ('wrapC05', 'c05OK'), 'c07': ('wrapC07', 'c07OK'), 'c08': ('wrapC08', 'c08OK'), 'c06': ('wrapC06', 'c06OK'), 'c13': ('wrapC13', 'c13OK')}
 
 
 def write_obligations(tabs, info, kinds=('c01', 'c03', 'c05', 'c07', 'c08')):
